@@ -94,3 +94,56 @@ let () =
       match parse_load (nat_of_int 64) wd raw (bytes_of_string main) with
       | OutOfFuel -> "OUTOFFUEL"
       | Ok m -> show_manifest m)
+
+(* ---- which errors belong to the same declaration ----
+   loadgroups <dir> [main] -> the numbers of errors the loader model reports per declaration, in program order (zeros
+   dropped), comma separated ("." = none), or NONE.  Used by the checks to compare the error lists of model and
+   implementation as multisets PER DECLARATION (the order in which one statement reports its independent errors is not
+   part of the property); errors of different declarations keep their order.
+   The sizes come from an OCaml mirror of NinjaEval.run_decls built from the extracted run_simple / eval_in_scope /
+   make_absolute / find_file; it is trusted only when its error list equals the one of the extracted [parse_load]
+   (otherwise NONE, and the caller compares strictly). *)
+let rec run_decls_g fuel stack wd fs ds acc =
+  List.fold_left (fun ((sc, st), gs) d ->
+      match d with
+      | DInclude (is_inc, ptext) ->
+        let (path, es) = eval_in_scope sc ptext in
+        let st1 = add_errors st es in
+        let apath = make_absolute wd path in
+        let n = List.length es in
+        if List.length stack >= 64 then ((sc, add_errors st1 [ EIncludeTooDeep ]), (n + 1) :: gs)
+        else if mem_bytes apath stack then ((sc, add_errors st1 [ ERecursiveInclude ]), (n + 1) :: gs)
+        else if fuel = 0 then ((sc, add_errors st1 [ EOutOfFuel ]), (n + 1) :: gs)
+        else (match find_file fs apath with
+            | None -> ((sc, add_errors st1 [ EMissingFile ]), (n + 1) :: gs)
+            | Some ds' ->
+              if is_inc then run_decls_g (fuel - 1) (apath :: stack) wd fs ds' ((sc, st1), n :: gs)
+              else
+                let ((_, st2), gs2) = run_decls_g (fuel - 1) (apath :: stack) wd fs ds' ((empty_frame :: sc, st1), n :: gs) in
+                ((sc, st2), gs2))
+      | _ ->
+        let (sc2, st2) = run_simple wd d sc st in
+        ((sc2, st2), (List.length st2.m_errors - List.length st.m_errors) :: gs))
+    acc ds
+
+let read_tree dir =
+  let wd = bytes_of_string dir in
+  (wd, List.map (fun r -> (make_absolute wd (bytes_of_string r), bytes_of_string (read_file (Filename.concat dir r)))) (walk dir ""))
+
+let () =
+  register "loadgroups" (fun args ->
+      let (dir, main) = match args with [ d ] -> (d, "build.ninja") | [ d; m ] -> (d, m) | _ -> failwith "args" in
+      let (wd, raw) = read_tree dir in
+      let mainb = bytes_of_string main in
+      match parse_files raw, parse_load (nat_of_int 64) wd raw mainb with
+      | Ok fs, Ok m ->
+        let amain = make_absolute wd mainb in
+        let (errs, gs) =
+          match find_file fs amain with
+          | None -> ([ EMissingFile ], [ 1 ])
+          | Some ds ->
+            let ((_, st), gs) = run_decls_g 64 [ amain ] wd fs ds ((init_scopes, init_state), []) in
+            (st.m_errors, List.rev gs) in
+        if List.map show_err errs <> List.map show_err m.mf_errors then "NONE"
+        else (match List.filter (fun g -> g > 0) gs with [] -> "." | l -> String.concat "," (List.map string_of_int l))
+      | _ -> "NONE")
